@@ -100,12 +100,14 @@ C09_EndsOnlyOnAllowed == (IsObs /\ Cur.srv # "running") => AllowedEnd(Cur)
 \* the harness's own make-service gate holds the accept loop)
 C09_ProbeServed ==
   (IsObs /\ Cur.kind = "probe" /\ HasPrev /\ Prev.srv = "running" /\ ~Prev.sigFired
-     /\ ~Prev.listenerLost /\ ~Prev.makeFailed /\ ~Prev.makePending) =>
+     /\ ~Prev.listenerLost /\ ~Prev.makeFailed /\ ~Prev.makePending
+     /\ ~Cur.sigFired) =>      \* (the probe's own make-service call may be the k-th one, which fires the signal)
        (Cur.probe.served /\ Cur.srv = "running")
 \* a step that touches one connection only changes nothing that any other connection observes
 \* (deterministic runtime only: with real sockets quiescence is a heuristic)
 C09_Isolation ==
-  (IsObs /\ HasPrev /\ Cur.kind = "step" /\ Cur.det /\ Acts \cap Global = {} /\ Cardinality(BConns) = 1) =>
+  (IsObs /\ HasPrev /\ Cur.kind = "step" /\ Cur.det /\ Acts \cap Global = {} /\ Cardinality(BConns) = 1
+     /\ Cur.sigFired = Prev.sigFired) =>     \* (not a step in which the make-service fired the signal)
      \A j \in 1..Len(Cur.conns) : Cur.conns[j].c \notin BConns => Cur.conns[j] = Prev.conns[j]
 \* a failure confined to one connection does not keep the runtime from going idle (a connection task
 \* that spins starves or slows everybody on the same executor; recorded by the harness's real-time
